@@ -86,9 +86,14 @@ pub struct CliRun {
 }
 
 pub fn run_cli(cwd: &Path, args: &[String]) -> Result<CliRun, String> {
+    let limit = std::env::var("VERIF_CLI_TIMEOUT").ok().and_then(|s| s.parse::<u64>().ok()).unwrap_or(120);
+    run_cli_limit(cwd, args, limit)
+}
+
+/// `run_cli` with an explicit watchdog (seconds).
+pub fn run_cli_limit(cwd: &Path, args: &[String], limit: u64) -> Result<CliRun, String> {
     ensure_cli_built()?;
     // watchdog: a command that never finishes must not block the check (error text starts with `timeout:`)
-    let limit = std::env::var("VERIF_CLI_TIMEOUT").ok().and_then(|s| s.parse::<u64>().ok()).unwrap_or(120);
     let mut cmd = Command::new(cli_binary());
     cmd.args(args)
         .current_dir(cwd)
